@@ -53,8 +53,8 @@ def _audit(event, args):
     if p is None:
         return
     if os.path.isabs(p):
-        if not p.startswith(s.root):
-            return
+        if not p.startswith(s.root) or p.rstrip("/") == s.root:
+            return  # outside the shared root, or the root directory itself (only ever created/stat-ed, by everybody)
     elif event in ("open",) and not s.in_rmtree.get(tid):
         return
     s.point(tid, event, p)
@@ -77,7 +77,7 @@ def install():
                 tid = s.tids.get(threading.get_ident())
                 if tid is not None:
                     p = os.fsdecode(path)
-                    if p.startswith(s.root):
+                    if p.startswith(s.root) and p.rstrip("/") != s.root:
                         s.point(tid, "os." + name, p)
             return real(path, *a, **k)
         return wrapped
@@ -129,6 +129,7 @@ class Sched:
         self.status = ["new"] * n  # new / ready / spin / done
         self.pending = [None] * n
         self.progress_since_spin = [True] * n
+        self.idle_spins = [0] * n  # consecutive sleeps of a spinner during which no other thread made a step
         install()
         self.cwd = {i: _REAL["getcwd"]() for i in range(n)}
         self.in_rmtree = {}
@@ -148,6 +149,10 @@ class Sched:
         self.pending[tid] = (kind, path)
         self.status[tid] = "spin" if spinning else "ready"
         if spinning:
+            # a poll loop is check -> sleep -> check ...: the check that follows this sleep may still see news that
+            # arrived before the sleep, so a spinner stays schedulable until it has slept twice in a row without any
+            # other thread making a step in between
+            self.idle_spins[tid] = 0 if self.progress_since_spin[tid] else self.idle_spins[tid] + 1
             self.progress_since_spin[tid] = False
         self.ctrl.release()
         self.sems[tid].acquire()
@@ -173,7 +178,7 @@ class Sched:
         for t in range(self.n):
             if self.status[t] == "ready":
                 out.append(t)
-            elif self.status[t] == "spin" and self.progress_since_spin[t]:
+            elif self.status[t] == "spin" and (self.progress_since_spin[t] or self.idle_spins[t] < 2):
                 out.append(t)
         if self.current in out:  # canonical order: running thread first
             out.remove(self.current)
